@@ -25,6 +25,7 @@ propagators_refine_inner total_propagator_refine eigh_contract_time_unit hamilto
 propagators_time_unit propagators_time_unit_eigh times_time_unit tau_time_unit
 total_propagator_time_unit total_propagator_invariant isSegmentCut_of_model'''.split()
 LEAN_MODULES = ['FFVerif.Props.C13', 'FFVerif.Props.C08Inv', 'FFVerif.Props.C13Prop']
+PINS = ['pinControlMatrixFromScratch', 'pinDiagonalize']
 GEN_SITES = c01.GEN_SITES
 COMPONENTS = c01.COMPONENTS
 RULES = ['correspondence: as C01 (the theorems are about the same executable model); search: '
@@ -123,6 +124,27 @@ def check_resegment(ctx, case):
         cmp(ctx, 'resegmentation', case, f'{name}: second-order filter function',
             gens.build(dd).get_filter_function(wg, order=2),
             gens.build(desc).get_filter_function(wg, order=2))
+    # a split into pieces of exactly equal length, evaluated with and without the performance option
+    # cache_intermediates (the option changes which buffers the per-segment quantities live in, not
+    # the result), and through the derivative entry point, which switches it on implicitly
+    k = int(rng.integers(2, 4))
+    rep = np.concatenate((np.arange(g), [g]*k, np.arange(g + 1, n)))
+    d5 = dict(desc)
+    d5['c_coeffs'] = np.asarray(desc['c_coeffs'])[:, rep]
+    d5['n_coeffs'] = np.asarray(desc['n_coeffs'])[:, rep]
+    d5['dt'] = np.concatenate((dt[:g], [dt[g]/k]*k, dt[g + 1:]))
+    for opt in (False, True):
+        q5 = gens.build(d5)
+        B5 = q5.get_control_matrix(omega, cache_intermediates=opt)
+        cmp(ctx, 'resegmentation', case, f'equal split (cache_intermediates={opt}): control matrix',
+            B5, B)
+        cmp(ctx, 'resegmentation', case, f'equal split (cache_intermediates={opt}): filter function',
+            q5.get_filter_function(omega), F)
+    q5 = gens.build(d5)
+    with np.errstate(all='ignore'):
+        q5.get_filter_function_derivative(omega)
+    cmp(ctx, 'resegmentation', case, 'equal split, after a derivative request: control matrix',
+        q5.get_control_matrix(omega), B)
     # operator order
     pc, pn = rng.permutation(len(desc['c_opers'])), rng.permutation(len(desc['n_opers']))
     d4 = dict(desc)
